@@ -255,9 +255,9 @@ impl<'a> PathRun<'a> {
 
             // built-in consistency check + public-API consistency (C08)
             if let Err(p) = guard(|| eg.check()) {
+                // the e-graph is still usable: go on, so that the other properties are judged too
                 self.stats.panics += 1;
                 self.finding("C08", "EGraph::check() fails", &key, path, step + 1, &site_key(&p), json!({"msg": p.msg}));
-                return None;
             }
             match guard(|| dump_consistent(&eg)) {
                 Ok(Ok(())) => {}
@@ -268,7 +268,6 @@ impl<'a> PathRun<'a> {
                         self.finding("C02", "e-node of a class looks up to a different invocation of that class", &key, path, step + 1, "", json!({"msg": s}));
                     } else {
                         self.finding("C08", "inconsistent structure", &key, path, step + 1, "", json!({"msg": s}));
-                        return None;
                     }
                 }
                 Err(p) => {
